@@ -183,6 +183,16 @@ func (b BoxHeader) payloadLen() int {
 	return int(b.Size) - b.Hdrlen
 }
 
+// useCompactSize changes the header of a box read with a 64-bit size (largesize) into the equivalent
+// header with a 32-bit size, for all boxes but mdat. The box decoders (size checks, child positions) and
+// the encoders all work with the 8-byte header, and the payload length stays the same.
+func (b *BoxHeader) useCompactSize() {
+	if b.Hdrlen == boxHeaderSize+largeSizeLen && b.Name != "mdat" {
+		b.Size -= largeSizeLen
+		b.Hdrlen = boxHeaderSize
+	}
+}
+
 // DecodeHeader decodes a box header (size + box type + possible largeSize)
 func DecodeHeader(r io.Reader) (BoxHeader, error) {
 	buf := make([]byte, boxHeaderSize)
@@ -312,6 +322,7 @@ func DecodeBox(startPos uint64, r io.Reader) (Box, error) {
 	if err != nil {
 		return nil, err
 	}
+	h.useCompactSize()
 
 	d, ok := decoders[h.Name]
 
@@ -336,6 +347,7 @@ func DecodeBoxLazyMdat(startPos uint64, r io.ReadSeeker) (Box, error) {
 	if err != nil {
 		return nil, err
 	}
+	h.useCompactSize()
 
 	d, ok := decoders[h.Name]
 
